@@ -1,6 +1,7 @@
 CONSTANTS
   MaxReports = 4
   Blocking = TRUE
+  DropStale = FALSE
 SPECIFICATION Spec
 INVARIANT NoWedge
 CHECK_DEADLOCK TRUE
